@@ -66,7 +66,9 @@ func TestC11ListenersFromConfig(t *testing.T) {
 			}
 			addrs = append(addrs, a)
 		}
-		args := []string{"fabio", "-proxy.cs", "cs=certs;type=path;cert=" + dir, "-proxy.addr", strings.Join(addrs, ",")}
+		// the source re-reads its directory every 'refresh' (sub-second values are legal durations)
+		refresh := rapid.SampledFrom([]string{"300ms", "700ms", "1s", "1500ms", "2s"}).Draw(t, "refresh")
+		args := []string{"fabio", "-proxy.cs", "cs=certs;type=path;refresh=" + refresh + ";cert=" + dir, "-proxy.addr", strings.Join(addrs, ",")}
 		cfg, err := config.Load(args, nil)
 		if err != nil {
 			t.Fatalf("config rejected: %v (%q)", err, args)
@@ -119,6 +121,33 @@ func TestC11ListenersFromConfig(t *testing.T) {
 					t.Fatalf("listener %d (%s) asked for %q presents %s, want %s\nlisteners: %q", i, addrs[i], name, got, want, addrs)
 				}
 			}
+		}
+		// a renewal under the same file names is picked up after about one refresh interval
+		if rapid.Bool().Draw(t, "renewal") {
+			serial := func(tc *tls.Config) string {
+				c, _ := tc.GetCertificate(&tls.ClientHelloInfo{ServerName: "a.example.com"})
+				if c == nil || len(c.Certificate) == 0 {
+					return "<none>"
+				}
+				x, err := x509.ParseCertificate(c.Certificate[0])
+				if err != nil {
+					return "<unparsable>"
+				}
+				return x.SerialNumber.String()
+			}
+			before := serial(tcs[0])
+			if err := writeCertPair(dir, "a0", "a.example.com"); err != nil {
+				t.Fatal(err)
+			}
+			d, _ := time.ParseDuration(refresh)
+			deadline := time.Now().Add(d + 4*time.Second)
+			for serial(tcs[0]) == before {
+				if time.Now().After(deadline) {
+					t.Fatalf("certificate source with refresh=%s: a renewed certificate (same file names) is still not served %v after it was written\nsource: %q", refresh, d+4*time.Second, args[2])
+				}
+				time.Sleep(10 * time.Millisecond)
+			}
+			hx.Class("renewal-picked-up:refresh=" + refresh)
 		}
 		mixed := false
 		for i := 1; i < n; i++ {
